@@ -5,11 +5,11 @@ from . import base
 ID = 'C03'
 LEVEL = 'exploration'
 PLAN = {
-    'quick': [('synth', 26000), ('shipped', 800)],
-    'thorough': [('synth', 1000000), ('shipped', 36000)],
+    'quick': [('synth', 26000), ('synth_reuse', 5000), ('shipped', 800)],
+    'thorough': [('synth', 1000000), ('synth_reuse', 200000), ('shipped', 36000)],
 }
 DEADLINE = {'quick': 200, 'thorough': 3300}
-PROBES = ['line-reattempted', 'partial-solution-checked', 'prompt-interleaved-with-computation']
+PROBES = ['store-reused-after-edit', 'line-reattempted', 'partial-solution-checked', 'prompt-interleaved-with-computation']
 ORACLES = {'H1', 'H2', 'C03.model', 'C03.stored'}
 ASSUMPTIONS = [
     'synthetic world: the model re-derives every value with its own interpreter context, name qualification and rounding',
@@ -23,7 +23,13 @@ RULE = ('generated form programs and simulated taxpayers under seeded attempt or
 
 
 def evaluate(case, engine, acc=None):
-    run = simrun.execute(case)
+    if engine == 'synth_reuse':
+        _, run, case, edits = simrun.execute_reuse(case, case.get('reuse_seed', 0))
+        if acc is not None and edits:
+            acc.count('probe:store-reused-after-edit')
+            acc.count('fault:store-edited-between-solves')
+    else:
+        run = simrun.execute(case)
     r1 = simrun.model_for(case, run)
     fs = [f for f in simrun.judge(case, run, r1) if f['oracle'] in ORACLES]
     for f in fs:
@@ -50,6 +56,8 @@ def run_one(engine, seed, acc, tier):
     case = gen.gen_case(seed, clean=rng.chance(0.45))
     if case['sched'][0] is None or rng.chance(0.5):
         case['sched'] = [rng.randrange(1 << 32), rng.pick([1, 1, 3, 0])]
+    if engine == 'synth_reuse':
+        case['reuse_seed'] = seed
     for f in evaluate(case, engine, acc):
         acc.violation(base.violation(ID, f, case, seed, engine))
 
